@@ -43,8 +43,9 @@ pub fn idx(raw: u16, len: usize) -> usize {
 }
 
 fn er(nmin: usize, nmax: usize) -> impl Strategy<Value = AbsGraph> {
-    // density class first, so that sparse and dense graphs both occur at every size
-    (nmin..=nmax, 0usize..=5).prop_flat_map(|(n, dens)| {
+    // density class first, so that sparse and dense graphs both occur at every size;
+    // self-attacks are allowed in a third of the graphs only (they trivialise the attacker)
+    (nmin..=nmax, 0usize..=5, 0u8..3).prop_flat_map(|(n, dens, selfmode)| {
         let max_m = match dens {
             0 => n / 2,
             1 => n,
@@ -57,7 +58,19 @@ fn er(nmin: usize, nmax: usize) -> impl Strategy<Value = AbsGraph> {
             let att = if n == 0 {
                 vec![]
             } else {
-                raw.into_iter().map(|(a, b)| (idx(a, n) as u8, idx(b, n) as u8)).collect()
+                raw.into_iter()
+                    .filter_map(|(a, b)| {
+                        let a = idx(a, n);
+                        if selfmode == 0 || n == 1 {
+                            Some((a as u8, idx(b, n) as u8))
+                        } else {
+                            // b ranges over the other arguments
+                            let b = (a + 1 + idx(b, n - 1)) % n;
+                            Some((a as u8, b as u8))
+                        }
+                    })
+                    .filter(|(a, b)| selfmode == 0 || a != b)
+                    .collect()
             };
             AbsGraph { n, att }
         })
